@@ -20,7 +20,7 @@ RULE = (
 )
 ASSUMPTIONS = [
     "errors raised when a definition is finalized (union arity, name collisions, extent, missing @sealed/@extent) carry no "
-    "line: only their path is checked; the case-only-difference error is excluded (which file is at fault is a matter of taste)",
+    "line: only their path is checked",
 ]
 MIN_MONITORS = {"fault-path": 3500, "fault-line": 3000, "print-evaluation": 2500, "print-delivery": 2500}
 THOROUGH_MIN_SCALE = 10
@@ -46,6 +46,8 @@ FAULTS = [
     ("invalid-constant-kind", ["bool B = 1"], True), ("invalid-padding", ["void65"], True),
     ("bad-directive-unknown", ["@foo"], True), ("bad-directive-operand", ["@union 1"], True), ("bad-directive-dup", ["@deprecated", "@deprecated"], True),
     ("duplicate-attribute", ["uint8 dup", "uint8 dup"], False),
+    # the name of an existing definition spelled with another letter case: the mistake is in the referring statement
+    ("case-only-reference", ["{root}.{othercase}.1.0 wrongcase"], True), ("case-only-reference-in-expression", ["@print {root}.{othercase}.1.0._extent_"], True),
 ]
 
 FILLERS = ["", "", "   ", "# comment", "#", "# @assert false", "uint8 f{n}", "bool g{n}", "void3", "int16 C{n} = -5", "@assert true",
@@ -118,7 +120,8 @@ def gen_case(rng):
         if i == depth:
             if mode == "fault":
                 kind, stmts, has_line = rng.choice(FAULTS)
-                stmts = [s.replace("{root}", root).replace("{self}", nm) for s in stmts]
+                other = rng.choice([x for x in names if x != nm] or [nm])
+                stmts = [s.replace("{root}", root).replace("{self}", nm).replace("{othercase}", other.swapcase()) for s in stmts]
                 svc = depth == 0 and rng.random() < 0.25
                 text, start, span = build_text(rng, stmts, refs, crlf, service=svc)
                 special = {"mode": "fault", "kind": kind + ("-in-response" if svc else ""), "start": start, "span": span, "has_line": has_line, "file": nm}
